@@ -16,11 +16,17 @@ import (
 // check asks for it (C05: a user function that itself calls a parsed function).
 // "fnan" maps negative numbers and empty arrays to NaN (think "mean of nothing"); the
 // generators use it inside filter operands only, where its output is compared, never returned.
-var FilterNames = []string{"f1", "f2", "f3", "f4", "f5", "f6", "fre", "fnan"}
+//
+// "fnest" / "gnest" are functions that themselves run a JSONPath: "fnest" returns member "a" of
+// its argument, "gnest" the second of its arguments. The library-side closures really call
+// jsonpath.Retrieve ("$.a" / "$[1]") and, when that inner retrieval fails, return ITS error
+// unchanged, as a user function naturally would; for the outer retrieval that is still a failed
+// user function.
+var FilterNames = []string{"f1", "f2", "f3", "f4", "f5", "f6", "fre", "fnan", "fnest"}
 
 // "gid" returns the very slice it was given (an aggregate a user could plausibly write); it
 // makes the ownership of the argument list observable (C05).
-var AggNames = []string{"g1", "g2", "g3", "g4", "g5", "g6", "gid"}
+var AggNames = []string{"g1", "g2", "g3", "g4", "g5", "g6", "gid", "gnest"}
 
 func nameIndex(names []string, name string) int {
 	for i, n := range names {
@@ -50,6 +56,15 @@ func ApplyFilter(name string, v interface{}) (interface{}, error) {
 	}
 	if name == "fre" {
 		return v, nil
+	}
+	if name == "fnest" {
+		if m, ok := v.(map[string]interface{}); ok {
+			if x, ok := m["a"]; ok {
+				return x, nil
+			}
+			return nil, fmt.Errorf("member did not exist (path=.a)") // the text of the inner retrieval's error
+		}
+		return nil, fmt.Errorf("type unmatched (expected=object, found=%s, path=.a)", typeName(v))
 	}
 	if name == "fnan" {
 		switch t := v.(type) {
@@ -118,6 +133,12 @@ func ApplyAggregate(name string, vs []interface{}) (interface{}, error) {
 	}
 	if name == "gid" {
 		return vs, nil
+	}
+	if name == "gnest" {
+		if len(vs) >= 2 {
+			return vs[1], nil
+		}
+		return nil, fmt.Errorf("member did not exist (path=[1])")
 	}
 	switch i % 3 {
 	case 0:
